@@ -1,6 +1,6 @@
 (* C13 - Remote and command caches store complete artifacts or nothing.
    This file holds only the statement, the property theorems and their non-vacuity examples. *)
-From PlzV Require Import Base.Harness Gen.C13Exits Model.C13 Proof.C13 Proof.C13_Vanish.
+From PlzV Require Import Base.Harness Gen.C13Exits Model.C13 Proof.C13 Proof.C13_Vanish Proof.C13_Seq.
 Local Open Scope N_scope.
 
 (* For every output directory `root` and every list of declared outputs (files, symlinks,
@@ -136,6 +136,67 @@ Theorem C13_walk_must_halt :
 Proof. exact skip_enoent_publishes. Qed.
 Print Assumptions C13_walk_must_halt.
 
+(* ---- follow-up 2 ---- *)
+
+(* The cancel of a store in which an output could not be read, against the creation of the store
+   process (cmdCache.Store starts the archive writer first; `sched`: the cancel comes before or
+   after the process exists).  For ALL output lists and BOTH orders: the store command did not run
+   to its end (it never ran, or was killed); a store command that publishes only when it ran to its
+   end (tmp + mv by sh itself) leaves the store as it was, and a later retrieve is a miss or a
+   complete hit.  The last clause is why the kill switch must be the context (regenerated from
+   cmdCache.Store): with a guarded cmd.Process.Kill(), for every list whose first output cannot be
+   read before anything was written, the dropped cancel lets such a command publish the bare
+   end-of-archive marker, and the retrieve is a hit that restores nothing. *)
+Theorem C13_cancel :
+  (forall files sc, all_healthy files = false -> cmd_fate files sc = NeverRan \/ cmd_fate files sc = Killed)
+  /\ (forall files sc store, all_healthy files = false -> cmd_store_atomic store files sc = store)
+  /\ (forall root files, NoDup (map fst (all_expected files)) ->
+        forall sc rcut exit_ok, safe files (cmd_retrieve root (cmd_store_atomic None files sc) rcut exit_ok []))
+  /\ (forall files, fst (write files) = [] -> all_healthy files = false ->
+        cmd_store_atomic_k KProcessIfStarted None files CancelBeforeStart = Some footer
+        /\ forall root, cmd_retrieve root (Some footer) None true [] = (true, [])).
+Proof.
+  exact (conj cmd_fate_after_fault
+        (conj cmd_store_atomic_fault_leaves_nothing
+        (conj cmd_atomic_all_or_nothing kill_guard_publishes_empty_archive))).
+Qed.
+Print Assumptions C13_cancel.
+
+(* Retrieves into an output directory that already holds ANYTHING (`disk` is arbitrary: stale
+   links, files left by an earlier failed retrieve, ...): all-or-nothing as in C13_partial, and an
+   occupied path of a symlink output - occupied by whatever - makes every retrieve a miss. *)
+Theorem C13_into :
+  forall (root : str) (files : list tree), NoDup (map fst (all_expected files)) ->
+  (forall put_ok g disk, safe files (http_retrieve root (http_store None files put_ok) g disk))
+  /\ (forall commit rcut exit_ok disk, cmd_defect files commit = false ->
+        safe files (cmd_retrieve root (cmd_store None files commit) rcut exit_ok disk))
+  /\ (forall n t disk, In (n, NLink t) (all_expected files) -> mem n disk = true ->
+        (forall g, fst (http_retrieve root (http_store None files true) g disk) = false)
+        /\ (forall k rcut exit_ok, fst (cmd_retrieve root (cmd_store None files (Some k)) rcut exit_ok disk) = false
+                                    \/ all_healthy files = false)).
+Proof.
+  exact (fun root files Hnd =>
+    conj (http_into_all_or_nothing root files Hnd)
+   (conj (cmd_into_all_or_nothing root files Hnd)
+         (fun n t disk => occupied_symlink_path_is_miss root files n t disk))).
+Qed.
+Print Assumptions C13_into.
+
+(* The multiplexer (cache.go) over ANY list of HTTP and command caches, for every target whose
+   outputs `ref` are plain files and links: after ANY history of build+Store / emptying the output
+   directory / Retrieve - each Retrieve with any fault in each cache, each Store (also the
+   back-fill after a hit) with any transport outcome - every cache holds nothing, the complete
+   archive of `ref` (HTTP) or a byte prefix of it (command cache), and a Retrieve is a miss or
+   restored every output exactly. *)
+Theorem C13_mplex :
+  forall (root : str) (ref : list tree), flat ref = true -> NoDup (map fst (all_expected ref)) ->
+  forall kinds ops rfs sfs,
+    let s := mexec root ref (map (fun k => (k, None)) kinds, []) ops in
+    let r := mstep root ref s (ORetrieve rfs sfs) in
+    Inv ref (fst (fst r)) /\ (snd r = Some true -> restored (snd (fst r)) ref).
+Proof. exact mplex_history_safe. Qed.
+Print Assumptions C13_mplex.
+
 (* ---- non-vacuity ---- *)
 Definition ex_files : list tree :=
   [TFile (s "o/a.txt") (s "aaa");
@@ -205,3 +266,51 @@ Example C13_walk_must_halt_nonvacuous :
   /\ (let r := read_tar (s "o") (st ++ footer) true [] in
       fst r = true /\ lookup (s "o/d/x") (snd r) = None /\ lookup (s "o/d/z") (snd r) = Some (NLink (s "x"))).
 Proof. vm_compute. repeat split; reflexivity. Qed.
+
+(* ---- non-vacuity, follow-up 2 ---- *)
+Example C13_cancel_nonvacuous :
+  let f := [TMissing (s "o/a.txt"); TFile (s "o/b.txt") (s "bb")] in
+  all_healthy f = false /\ fst (write f) = []
+  /\ cmd_fate f CancelBeforeStart = NeverRan /\ cmd_fate f CancelAfterStart = Killed
+  /\ cmd_fate witness_files CancelBeforeStart = Killed
+  /\ cmd_fate ex_files CancelBeforeStart = RanToEnd
+  /\ fst (cmd_retrieve (s "o") (cmd_store_atomic None ex_files CancelBeforeStart) None true []) = true
+  /\ cmd_store_atomic None f CancelBeforeStart = None
+  /\ cmd_store_atomic_k KProcessIfStarted None f CancelBeforeStart = Some footer.
+Proof. vm_compute. repeat split; reflexivity. Qed.
+
+Definition into_files : list tree := [TFile (s "o/lib.so.2") (rep 600 76); TLink (s "o/lib.so") (s "lib.so.2")].
+Example C13_into_nonvacuous :
+  NoDup (map fst (all_expected into_files))
+  (* over a stale copy of the regular file: a hit that restored everything *)
+  /\ (let r := http_retrieve (s "o") (http_store None into_files true) GetOk [(s "o/lib.so.2", NFile (s "stale"))] in
+       fst r = true /\ lookup (s "o/lib.so.2") (snd r) = Some (NFile (rep 600 76)) /\ lookup (s "o/lib.so") (snd r) = Some (NLink (s "lib.so.2")))
+  (* over a stale link / an empty file at the link's path: a miss *)
+  /\ fst (http_retrieve (s "o") (http_store None into_files true) GetOk [(s "o/lib.so", NLink (s "lib.so.1"))]) = false
+  /\ fst (cmd_retrieve (s "o") (cmd_store None into_files (Some 99999)) None true [(s "o/lib.so", NFile [])]) = false
+  /\ mem (s "o/lib.so") [(s "o/lib.so", NFile [])] = true.
+Proof.
+  vm_compute. repeat split; try reflexivity.
+  repeat constructor; cbn; intuition discriminate.
+Qed.
+
+(* the history of the seeded demonstration: HTTP has the entry, the command cache refused it; a
+   retrieve cut inside the last file is a miss that leaves the file short and stores NOTHING; the
+   next retrieve is a complete hit.  With back-fill on a total miss the same history ends in a hit
+   with the short file (backfill_on_total_miss_breaks). *)
+Example C13_mplex_nonvacuous :
+  flat bf_ref = true /\ NoDup (map fst (all_expected bf_ref))
+  /\ (let s1 := mexec (s "o") bf_ref ([(KHttp, None); (KCmd, None)], []) [OBuild [Some 0; None]; OWipe] in
+       fst s1 = bf_state
+       /\ (let r := mstep (s "o") bf_ref s1 (ORetrieve bf_cut [Some 0; Some 99999]) in
+            snd r = Some false /\ fst (fst r) = bf_state /\ lookup (s "o/b.txt") (snd (fst r)) = Some (NFile (rep 164 98))
+            /\ (let r2 := mstep (s "o") bf_ref (fst (fst r), []) (ORetrieve [] []) in
+                 snd r2 = Some true /\ lookup (s "o/b.txt") (snd (fst r2)) = Some (NFile (rep 700 98)))))
+  /\ (let '(h1, st1, d1) := mplex_retrieve_b true (s "o") (map name_of bf_ref) bf_state bf_cut [Some 0; Some 99999] [] in
+       let '(h2, st2, d2) := mplex_retrieve_b true (s "o") (map name_of bf_ref) st1 [] [] [] in
+       h1 = false /\ h2 = true /\ lookup (s "o/b.txt") d2 = Some (NFile (rep 164 98))).
+Proof.
+  vm_compute. repeat split; try reflexivity.
+  repeat constructor; cbn; intuition discriminate.
+Qed.
+
